@@ -26,6 +26,7 @@ class Built:
         self.wit = {}  # wid -> Signal
         self.fsm = {}  # fid -> (FSM object, [state names])
         self.branch = {}  # bid -> comb witness inside a condition() branch
+        self.branch_run = {}  # bid -> run signal of the branch's own body
 
 
 class GenModule(Elaboratable):
@@ -246,9 +247,14 @@ class Emitter:
             for br in n["branches"]:
                 ctx = branch(self.inp(br["cond"])) if br.get("cond") else branch()
                 with ctx:
+                    from transactron.core.body import Body
+
                     w = Signal(name=f"{br['bid']}_bw")
                     m.d.comb += w.eq(1)
                     self.b.branch[br["bid"]] = w
+                    # the branch is a nested transaction: its own run signal (the comb witness is additionally
+                    # gated by the run of every enclosing body)
+                    self.b.branch_run[br["bid"]] = Body.get().run
                     self.emit_list(br["body"], din)
 
 
